@@ -20,7 +20,7 @@ def regen_slots():
     return slots.regenerate()
 
 OPS = ['cf_cycles', 'cf_amp', 'cf_cycles_trough', 'cf_amp_trough', 'shape', 'shape_trough', 'cyclepoints', 'burstfeat_cycles', 'burstfeat_amp', 'ampfrac', 'ampcons', 'percons', 'mono',
-       'extrema', 'zerox', 'cf2d_dict', 'cf2d_list', 'cf2d_alias', 'cf2d_none_axis', 'cf3d', 'edges', 'limit', 'epoch', 'drop', 'plot_summary', 'plot_cyclepoints', 'plot_param']
+       'extrema', 'zerox', 'cf2d_dict', 'cf2d_list', 'cf2d_alias', 'cf2d_none_axis', 'cf3d', 'edges', 'limit', 'limit_all', 'epoch', 'drop', 'plot_summary', 'plot_cyclepoints', 'plot_param']
 
 class World:
     """the shared argument objects of one session"""
@@ -95,6 +95,9 @@ def _call(w, op):
         if op == 'cf3d': return q(compute_features_3d, w.sigs3, w.fs, w.fr, compute_features_kwargs=w.opts, axis=(0, 1), n_jobs=1)
         if op == 'edges': return q(recompute_edges, w.df, w.th_c)
         if op == 'limit': return q(limit_df, w.df_t, w.fs, start=0.5, stop=3.0)
+        if op == 'limit_all':      # limits that keep every cycle, with a non-zero shift
+            first = int(w.df['sample_last_trough'].values[0])
+            return q(limit_df, w.df, w.fs, start=first / w.fs, stop=None)
         if op == 'epoch': return q(epoch_df, w.df, len(w.sig), 250)
         if op == 'drop': return q(drop_samples_df, w.df)
         if op == 'plot_summary':
